@@ -51,6 +51,76 @@ func (x Xor) Successor(dst, b []byte) []byte {
 	return append(dst, x.m(r)...)
 }
 
+// CaseFold orders keys bytewise after mapping the ASCII letters 'A'..'Z' to 'a'..'z': a lawful total
+// PREORDER on byte strings that is NOT injective ("Key", "KEY" and "key" compare equal: they are one user
+// key).  goleveldb's own test suite uses such a comparer (numberComparer in leveldb/db_test.go) and LevelDB's
+// contract only asks for a total order, although the doc comment of comparer.BasicComparer says that
+// arguments are equal only if their contents are exactly equal.  Separator/Successor never shorten (nil is
+// always lawful: iComparer.Separator/Successor return nil on nil and the table writer then keeps the key).
+// Coq twin: Codec/CiCmp.v cicmp.
+type CaseFold struct{}
+
+func foldByte(c byte) byte {
+	if c >= 'A' && c <= 'Z' {
+		return c + 32
+	}
+	return c
+}
+
+func (CaseFold) Name() string { return "verif.CaseFold" }
+func (CaseFold) Compare(a, b []byte) int {
+	n := len(a)
+	if len(b) < n {
+		n = len(b)
+	}
+	for i := 0; i < n; i++ {
+		x, y := foldByte(a[i]), foldByte(b[i])
+		if x != y {
+			if x < y {
+				return -1
+			}
+			return 1
+		}
+	}
+	switch {
+	case len(a) < len(b):
+		return -1
+	case len(a) > len(b):
+		return 1
+	}
+	return 0
+}
+func (CaseFold) Separator(dst, a, b []byte) []byte { return nil }
+func (CaseFold) Successor(dst, b []byte) []byte    { return nil }
+
+// Canon returns the canonical spelling of k's equivalence class (all letters lower case).
+func (CaseFold) Canon(k []byte) []byte {
+	r := make([]byte, len(k))
+	for i, c := range k {
+		r[i] = foldByte(c)
+	}
+	return r
+}
+
+// Canoner is implemented by the comparers under which byte-different keys may compare equal.
+type Canoner interface {
+	Canon(k []byte) []byte
+}
+
+// NonInjective reports whether byte-different keys may compare equal under c.
+func NonInjective(c comparer.Comparer) bool { _, ok := c.(Canoner); return ok }
+
+// CanonKey is the canonical spelling of k's class under c (k itself for the injective comparers).
+func CanonKey(c comparer.Comparer, k []byte) []byte {
+	if cn, ok := c.(Canoner); ok {
+		return cn.Canon(k)
+	}
+	return k
+}
+
+// CmpCaseFold is the id of the non-injective comparer.
+const CmpCaseFold = 4
+
 // Comparers indexed by the id used in Coq case files (Corr/Cmps.v: cmp_of_id).
 func ComparerByID(id int) comparer.Comparer {
 	switch id {
@@ -62,8 +132,13 @@ func ComparerByID(id int) comparer.Comparer {
 		return Xor{0x55}
 	case 3:
 		return Xor{0xff}
+	case 4:
+		return CaseFold{}
 	}
 	panic("bad comparer id")
 }
 
+// NumComparers counts the INJECTIVE comparers (ids 0..3): the generators that draw "any comparer" (table, block,
+// memdb, codec level checks whose oracles are keyed by key bytes) stay on these; id 4 (CaseFold) is selected
+// explicitly by the DB-level harnesses whose oracle is keyed by equivalence class.
 const NumComparers = 4
